@@ -35,13 +35,13 @@ def make_program(prop: str, seed: int, stream: int, scratch: str,
                  mc_decoys: str = 'random', mc_position: Optional[str] = None,
                  mc_shape: Optional[int] = None, accept=None,
                  ref_externs: Optional[float] = None, twins: bool = False,
-                 mc_enum_family: bool = False):
+                 mc_enum_family: bool = False, mc_no_outs: bool = False):
     rng = random.Random(f'{prop}:{seed}:{stream}')
     gen, ent, enc, info = cfggen.gen_shell_case(rng, want_multiclient=want_mc, small=small,
                                                 mc_decoys=mc_decoys, mc_position=mc_position,
                                                 mc_shape=stream if mc_shape is None else mc_shape,
                                                 accept=accept, ref_externs=ref_externs, twins=twins,
-                                                mc_enum_family=mc_enum_family)
+                                                mc_enum_family=mc_enum_family, mc_no_outs=mc_no_outs)
     work = os.path.join(scratch, f'{prop.lower()}_{stream}')
     prog = cxxlab.ShellProgram(gen, ent, enc, info, work)
     case = {'seed': seed, 'stream': stream, 'cfg': enc, 'component': info['fqn'],
